@@ -185,8 +185,35 @@ class Repo:
             raise AnalysisError(f'module {name}.py vanished from {PKG_DIR}')
         return self.modules[name]
 
+    def find_funcs(self, module: str, qualname: str) -> list[FuncInfo]:
+        """Definitions of `module.qualname`, following the function when it was moved: imported into `module` from another package
+        module, bound there as a module-level alias of another function, or (not bound in `module` at all any more) defined under that
+        name in exactly one other module.  An anchor names a function; the file it lives in is incidental."""
+        m = self.modules.get(module)
+        if m is None:
+            return []
+        fs = m.func(qualname)
+        if fs or '.' in qualname:
+            return fs
+        r = self.resolve_import(module, qualname)
+        if r and r[0] in self.modules and r[0] != module:
+            fs = self.modules[r[0]].func(r[1])
+            if fs:
+                return fs
+        for st in m.tree.body:      # q = other_function
+            if isinstance(st, ast.Assign) and len(st.targets) == 1 and isinstance(st.targets[0], ast.Name) and st.targets[0].id == qualname and \
+                    isinstance(st.value, ast.Name) and st.value.id != qualname:
+                fs = self.find_funcs(module, st.value.id)
+                if fs:
+                    return fs
+        if qualname not in m.imports:
+            homes = [mm for mm in self.modules.values() if mm.func(qualname)]
+            if len(homes) == 1:
+                return homes[0].func(qualname)
+        return []
+
     def funcs(self, module: str, qualname: str, min_count: int = 1) -> list[FuncInfo]:
-        fs = self.mod(module).func(qualname)
+        fs = self.find_funcs(module, qualname)
         if len(fs) < min_count:
             raise AnalysisError(f'anchor function {module}.{qualname} not found (expected >= {min_count} definition(s))')
         return fs
